@@ -56,8 +56,23 @@ pub fn child(args: &[String]) {
     let recs = read_ndjson(&args[0]);
     let r = &recs[args[1].parse::<usize>().unwrap()];
     expression_engine::verif_hooks::init();
+    // in every second history each program is described once BEFORE anything is registered, and again between the registrations:
+    // a rendering that was already produced may not pin a descriptor (a registration takes effect whenever it is made)
+    let warm = args[1].parse::<usize>().unwrap() % 2 == 1;
+    let describe_all = |_: ()| {
+        for p in r["programs"].as_array().unwrap() {
+            let ast = build(p);
+            let _ = guarded(move || ast.describe());
+        }
+    };
+    if warm {
+        describe_all(());
+    }
     for s in r["sets"].as_array().unwrap() {
         set_marker(s[0].as_str().unwrap(), s[1].as_str().unwrap(), s[2].as_str().unwrap());
+        if warm {
+            describe_all(());
+        }
     }
     let mut outs = Vec::new();
     for p in r["programs"].as_array().unwrap() {
